@@ -462,6 +462,27 @@ fn spec_apply_must_succeed(m: &MM, ns: &NA) -> bool {
 	!cyclic(&mapped)
 }
 
+/// the request-side domain of `oracle-undo-apply` (mirrors `wfMappings && undoApplyDomain` of Driver/C14.lean): entries stored under
+/// their keys, the names the set uses can stand in a descriptor, the table is acyclic, the nested names it produces can be written
+/// into a descriptor and the translation is injective on the names the set uses: all of it evaluated on the names the PROPERTY
+/// states (`spec_name`), not on what the code produced
+fn spec_undo_apply_domain(m: &MM, ns: &NA) -> bool {
+	if !wf_mappings(m) { return false; }
+	let used = used_names(m);
+	if !used.iter().all(|n| clean(n)) { return false; }
+	if cyclic(ns) { return false; }
+	let keys: Vec<JavaString> = ns.all.keys().map(|k| k.as_inner().to_owned()).collect();
+	let tr_keys: Vec<JavaString> = keys.iter().map(|k| spec_name(ns, k)).collect();
+	if !tr_keys.iter().all(|t| clean(t)) { return false; }
+	for c in &used {
+		let tc = spec_name(ns, c);
+		for (k, tk) in keys.iter().zip(&tr_keys) {
+			if &tc == tk && c != k { return false; }
+		}
+	}
+	true
+}
+
 // ------------------------------------------------------------------------------------------------ exec
 
 fn exec(op: &str, args: &[Sexp]) -> Ans {
@@ -532,21 +553,7 @@ fn exec(op: &str, args: &[Sexp]) -> Ans {
 		}
 		("oracle-undo-apply", [m, ns]) => {
 			let ns = tr!(nests_from(ns)); let m: MM = tr!(from_sexp(m));
-			if !wf_mappings(&m) { return Ans::out_of_domain(); }
-			let used = used_names(&m);
-			if !used.iter().all(|n| clean(n)) { return Ans::out_of_domain(); }
-			// the table is acyclic, the nested names it produces can be written into a descriptor and the translation is injective
-			// on the names the set uses: all of it evaluated on the names the PROPERTY states (`spec_name`), not on what the code produced
-			if cyclic(&ns) { return Ans::out_of_domain(); }
-			let keys: Vec<JavaString> = ns.all.keys().map(|k| k.as_inner().to_owned()).collect();
-			let tr_keys: Vec<JavaString> = keys.iter().map(|k| spec_name(&ns, k)).collect();
-			if !tr_keys.iter().all(|t| clean(t)) { return Ans::out_of_domain(); }
-			for c in &used {
-				let tc = spec_name(&ns, c);
-				for (k, tk) in keys.iter().zip(&tr_keys) {
-					if &tc == tk && c != k { return Ans::out_of_domain(); }
-				}
-			}
+			if !spec_undo_apply_domain(&m, &ns) { return Ans::out_of_domain(); }
 			let view = src_view(&m);
 			// sets that cannot be nested at all (no second name, malformed descriptors, untranslatable table) are outside; but where
 			// the request alone shows that nesting must succeed, an error is a failure
@@ -724,7 +731,12 @@ fn exec(op: &str, args: &[Sexp]) -> Ans {
 		("oracle-apply-spec", [m, ns]) => {
 			let ns = tr!(nests_from(ns)); let m: MM = tr!(from_sexp(m));
 			let before = m.clone();
-			let Applied::Ok(after) = safe_apply(m, &ns) else { return Ans::out_of_domain() };
+			// an error is "outside the domain" only where the request does not show that nesting must succeed: inside the request-side
+			// domain of the round trip (well-formed set, acyclic table, injective translation: no two keys can collide) and under the
+			// sufficient condition `spec_apply_must_succeed`, an error or a panic of the implementation is a failure (the model never
+			// errs there, so Driver/C14.lean keeps answering from the model)
+			let must = spec_undo_apply_domain(&m, &ns) && spec_apply_must_succeed(&m, &ns);
+			let Applied::Ok(after) = safe_apply(m, &ns) else { return if must { Ans::fail("apply_err") } else { Ans::out_of_domain() } };
 			if after.classes.len() != before.classes.len() { return Ans::fail("class_count") }
 			for ((k, c), (k2, c2)) in before.classes.iter().zip(after.classes.iter()) {
 				if k2.as_inner() != &spec_name(&ns, k.as_inner()) { return Ans::fail("class_key") }
@@ -753,7 +765,15 @@ fn exec(op: &str, args: &[Sexp]) -> Ans {
 		}
 		("oracle-map-nests-spec", [ns, m]) => {
 			let ns = tr!(nests_from(ns)); let m: MM = tr!(from_sexp(m));
-			let Ok(out) = dukenest::remap_nests(&ns, &m) else { return Ans::out_of_domain() };
+			// request-side sufficient condition for `map_nests` to succeed: the entries are stored under their first names, every class
+			// has a second name, every descriptor (members, enclosing methods) is well formed and no translated nest name takes one of the
+			// special paths that can fail (`__` split, non-numeric `C_…` target of an anonymous class); every other name is resolved by
+			// the identity fallback. There an error or a panic is a failure, not "outside the domain"
+			let must = wf_mappings(&m) && spec_apply_must_succeed(&m, &ns);
+			let out = match catch_unwind(AssertUnwindSafe(|| dukenest::remap_nests(&ns, &m))) {
+				Ok(Ok(out)) => out,
+				_ => return if must { Ans::fail("map_nests_err") } else { Ans::out_of_domain() },
+			};
 			let Ok(rem) = m.remapper_b_first_to_second(NoSuperClassProvider::new()) else { return Ans::fail("remapper") };
 			let mut wanted: IndexMap<ObjClassName, Nest> = IndexMap::new();
 			for n in ns.all.values() {
